@@ -1,3 +1,685 @@
+// extract regenerates lean/SettlusModel/Generated/*.lean from /repo's current working tree.
+//
+// Two sources: the typed AST of the anchored packages (go list -export + go/types, standard library only) for facts that are
+// shapes of the code, and the packages themselves, linked into this binary from the same working tree, for facts that are values.
+// Pattern matching is deliberately strict: an unrecognised shape is an error naming the site, which the check treats as a broken tie.
 package main
 
-func main() {}
+import (
+	"encoding/json"
+	"flag"
+	"fmt"
+	"go/ast"
+	"go/constant"
+	"go/importer"
+	"go/parser"
+	"go/token"
+	"go/types"
+	"io"
+	"os"
+	"os/exec"
+	"path/filepath"
+	"reflect"
+	"sort"
+	"strings"
+
+	sdk "github.com/cosmos/cosmos-sdk/types"
+	sdkvesting "github.com/cosmos/cosmos-sdk/x/auth/vesting/types"
+	"github.com/evmos/evmos/v19/encoding"
+	evmtypes "github.com/evmos/evmos/v19/x/evm/types"
+
+	"github.com/settlus/chain/app"
+	otypes "github.com/settlus/chain/x/oracle/types"
+	stypes "github.com/settlus/chain/x/settlement/types"
+)
+
+type pkgInfo struct {
+	ImportPath string
+	Dir        string
+	Export     string
+	GoFiles    []string
+}
+
+type loaded struct {
+	path  string
+	fset  *token.FileSet
+	files []*ast.File
+	info  *types.Info
+	pkg   *types.Package
+}
+
+var problems []string
+
+func fail(format string, a ...interface{}) { problems = append(problems, fmt.Sprintf(format, a...)) }
+
+func load(repo string, pats []string) map[string]*loaded {
+	cmd := exec.Command("go", append([]string{"list", "-export", "-deps", "-json=ImportPath,Dir,Export,GoFiles"}, pats...)...)
+	cmd.Dir = repo
+	cmd.Stderr = os.Stderr
+	out, err := cmd.Output()
+	if err != nil {
+		fmt.Fprintln(os.Stderr, "go list failed:", err)
+		os.Exit(3)
+	}
+	dec := json.NewDecoder(strings.NewReader(string(out)))
+	exports := map[string]string{}
+	var targets []pkgInfo
+	for {
+		var p pkgInfo
+		if err := dec.Decode(&p); err == io.EOF {
+			break
+		} else if err != nil {
+			panic(err)
+		}
+		exports[p.ImportPath] = p.Export
+		if strings.HasPrefix(p.ImportPath, "github.com/settlus/chain") {
+			targets = append(targets, p)
+		}
+	}
+	fset := token.NewFileSet()
+	imp := importer.ForCompiler(fset, "gc", func(path string) (io.ReadCloser, error) {
+		f, ok := exports[path]
+		if !ok || f == "" {
+			return nil, fmt.Errorf("no export data for %s", path)
+		}
+		return os.Open(f)
+	})
+	res := map[string]*loaded{}
+	want := map[string]bool{}
+	for _, p := range pats {
+		want["github.com/settlus/chain/"+strings.TrimPrefix(p, "./")] = true
+	}
+	for _, p := range targets {
+		if !want[p.ImportPath] {
+			continue
+		}
+		var files []*ast.File
+		for _, f := range p.GoFiles {
+			af, err := parser.ParseFile(fset, filepath.Join(p.Dir, f), nil, 0)
+			if err != nil {
+				panic(err)
+			}
+			files = append(files, af)
+		}
+		info := &types.Info{Types: map[ast.Expr]types.TypeAndValue{}, Uses: map[*ast.Ident]types.Object{}, Defs: map[*ast.Ident]types.Object{}}
+		conf := types.Config{Importer: imp, Error: func(err error) {}}
+		pkg, _ := conf.Check(p.ImportPath, fset, files, info)
+		res[strings.TrimPrefix(p.ImportPath, "github.com/settlus/chain/")] = &loaded{p.ImportPath, fset, files, info, pkg}
+	}
+	return res
+}
+
+func (l *loaded) funcDecl(name string) *ast.FuncDecl {
+	for _, f := range l.files {
+		for _, d := range f.Decls {
+			if fd, ok := d.(*ast.FuncDecl); ok && fd.Name.Name == name {
+				return fd
+			}
+		}
+	}
+	return nil
+}
+
+func (l *loaded) pos(n ast.Node) string {
+	p := l.fset.Position(n.Pos())
+	return fmt.Sprintf("%s:%d", strings.TrimPrefix(p.Filename, "/repo/"), p.Line)
+}
+
+func exprName(e ast.Expr) string { return types.ExprString(e) }
+
+// ---------- Lean rendering ----------
+
+func leanStr(s string) string { return fmt.Sprintf("%q", s) }
+
+func leanChars(s string) string { return fmt.Sprintf("%q.toList", s) }
+
+func leanList(xs []string) string { return "[" + strings.Join(xs, ", ") + "]" }
+
+func mapS(xs []string, f func(string) string) []string {
+	var out []string
+	for _, x := range xs {
+		out = append(out, f(x))
+	}
+	return out
+}
+
+// ---------- facts ----------
+
+// decoratorChain returns the argument names of sdk.ChainAnteDecorators(...) in the named function.
+func decoratorChain(l *loaded, fn string) []string {
+	fd := l.funcDecl(fn)
+	if fd == nil {
+		fail("app/ante: function %s not found", fn)
+		return nil
+	}
+	var out []string
+	found := false
+	ast.Inspect(fd, func(n ast.Node) bool {
+		c, ok := n.(*ast.CallExpr)
+		if !ok || exprName(c.Fun) != "sdk.ChainAnteDecorators" {
+			return true
+		}
+		found = true
+		for _, a := range c.Args {
+			switch x := a.(type) {
+			case *ast.CompositeLit:
+				out = append(out, exprName(x.Type))
+			case *ast.CallExpr:
+				out = append(out, exprName(x.Fun))
+			default:
+				fail("%s: unrecognised decorator expression %s", l.pos(a), exprName(a))
+			}
+		}
+		return false
+	})
+	if !found {
+		fail("app/ante: %s no longer builds its chain with sdk.ChainAnteDecorators", fn)
+	}
+	return out
+}
+
+// msgURLs: Go type (package path + "." + name) -> proto type URL, from the application's interface registry.
+func msgURLs() map[string]string {
+	enc := encoding.MakeConfig(app.ModuleBasics)
+	out := map[string]string{}
+	for _, url := range enc.InterfaceRegistry.ListImplementations(sdk.MsgInterfaceProtoName) {
+		m, err := enc.InterfaceRegistry.Resolve(url)
+		if err != nil {
+			continue
+		}
+		t := reflect.TypeOf(m).Elem()
+		out[t.PkgPath()+"."+t.Name()] = url
+	}
+	// message types that no module of this application registers but that the limiter may still name
+	for _, m := range []sdk.Msg{&sdkvesting.MsgCreateVestingAccount{}, &evmtypes.MsgEthereumTx{}} {
+		t := reflect.TypeOf(m).Elem()
+		out[t.PkgPath()+"."+t.Name()] = sdk.MsgTypeURL(m)
+	}
+	return out
+}
+
+// limiterList resolves the sdk.MsgTypeURL(&T{}) arguments of cosmosante.NewAuthzLimiterDecorator.
+func limiterList(l *loaded, urls map[string]string) []string {
+	fd := l.funcDecl("newCosmosAnteHandler")
+	var out []string
+	found := false
+	if fd == nil {
+		return nil
+	}
+	ast.Inspect(fd, func(n ast.Node) bool {
+		c, ok := n.(*ast.CallExpr)
+		if !ok || exprName(c.Fun) != "cosmosante.NewAuthzLimiterDecorator" {
+			return true
+		}
+		found = true
+		for _, a := range c.Args {
+			ca, ok := a.(*ast.CallExpr)
+			if !ok || exprName(ca.Fun) != "sdk.MsgTypeURL" || len(ca.Args) != 1 {
+				fail("%s: authz limiter argument is not sdk.MsgTypeURL(&T{}): %s", l.pos(a), exprName(a))
+				continue
+			}
+			tv, ok := l.info.Types[ca.Args[0]]
+			if !ok {
+				fail("%s: untyped limiter argument", l.pos(a))
+				continue
+			}
+			pt, ok := tv.Type.(*types.Pointer)
+			if !ok {
+				fail("%s: limiter argument is not a pointer to a message type", l.pos(a))
+				continue
+			}
+			nt, ok := pt.Elem().(*types.Named)
+			if !ok {
+				continue
+			}
+			key := nt.Obj().Pkg().Path() + "." + nt.Obj().Name()
+			// vendored replacements keep the module path of the original in the type's package path
+			url, ok := urls[key]
+			if !ok {
+				fail("%s: no registered message type for %s", l.pos(a), key)
+				continue
+			}
+			out = append(out, url)
+		}
+		return false
+	})
+	if !found {
+		fail("app/ante/handler_options.go: the generic chain has no cosmosante.NewAuthzLimiterDecorator")
+	}
+	return out
+}
+
+// prefixTests collects string literals X in strings.HasPrefix(sdk.MsgTypeURL(msg), X) and exact comparisons guarded by a height test.
+func rejectRules(l *loaded) (prefixes, exact []string) {
+	var fd *ast.FuncDecl
+	for _, f := range l.files {
+		for _, d := range f.Decls {
+			if x, ok := d.(*ast.FuncDecl); ok && x.Name.Name == "AnteHandle" && x.Recv != nil && strings.Contains(exprName(x.Recv.List[0].Type), "RejectMessagesDecorator") {
+				fd = x
+			}
+		}
+	}
+	if fd == nil {
+		fail("app/ante/reject_msgs.go: RejectMessagesDecorator.AnteHandle not found")
+		return
+	}
+	ast.Inspect(fd, func(n ast.Node) bool {
+		is, ok := n.(*ast.IfStmt)
+		if !ok {
+			return true
+		}
+		cond := exprName(is.Cond)
+		switch {
+		case strings.HasPrefix(cond, "strings.HasPrefix(sdk.MsgTypeURL(msg), "):
+			c := is.Cond.(*ast.CallExpr)
+			if lit, ok := c.Args[1].(*ast.BasicLit); ok {
+				prefixes = append(prefixes, strings.Trim(lit.Value, "\""))
+			} else {
+				fail("%s: prefix is not a literal", l.pos(is))
+			}
+		case strings.HasPrefix(cond, "sdk.MsgTypeURL(msg) == ") && strings.HasSuffix(cond, "&& ctx.BlockHeight() != 0"):
+			b := is.Cond.(*ast.BinaryExpr).X.(*ast.BinaryExpr)
+			if lit, ok := b.Y.(*ast.BasicLit); ok {
+				exact = append(exact, strings.Trim(lit.Value, "\""))
+			}
+		default:
+			fail("%s: unrecognised reject rule: %s", l.pos(is), cond)
+		}
+		// every rule must end in a return of an error
+		ret := false
+		for _, s := range is.Body.List {
+			if _, ok := s.(*ast.ReturnStmt); ok {
+				ret = true
+			}
+		}
+		if !ret {
+			fail("%s: reject rule does not return", l.pos(is))
+		}
+		return true
+	})
+	return
+}
+
+func routingPrefix(l *loaded, fn string) string {
+	fd := l.funcDecl(fn)
+	if fd == nil {
+		fail("app/ante/ante.go: %s not found", fn)
+		return ""
+	}
+	res := ""
+	n := 0
+	ast.Inspect(fd, func(nd ast.Node) bool {
+		c, ok := nd.(*ast.CallExpr)
+		if ok && exprName(c.Fun) == "strings.HasPrefix" && len(c.Args) == 2 && exprName(c.Args[0]) == "sdk.MsgTypeURL(msg)" {
+			if lit, ok := c.Args[1].(*ast.BasicLit); ok {
+				res = strings.Trim(lit.Value, "\"")
+				n++
+			}
+		}
+		return true
+	})
+	if n != 1 {
+		fail("app/ante/ante.go: %s no longer has exactly one prefix test (found %d)", fn, n)
+	}
+	// the shape "empty => false; any message without the prefix => false; else true"
+	src := nodeSrc(l, fd)
+	if !strings.Contains(src, "len(tx.GetMsgs()) == 0") || !strings.Contains(src, "!strings.HasPrefix") {
+		fail("app/ante/ante.go: %s lost its emptiness test or the negated prefix test", fn)
+	}
+	return res
+}
+
+func nodeSrc(l *loaded, n ast.Node) string {
+	var sb strings.Builder
+	ast.Inspect(n, func(x ast.Node) bool {
+		if e, ok := x.(ast.Expr); ok {
+			sb.WriteString(exprName(e))
+			sb.WriteString(";")
+		}
+		return true
+	})
+	return sb.String()
+}
+
+func constVal(l *loaded, name string) string {
+	for id, obj := range l.info.Defs {
+		if id.Name == name {
+			if c, ok := obj.(*types.Const); ok {
+				if v, ok := constant.Uint64Val(constant.ToInt(c.Val())); ok {
+					return fmt.Sprint(v)
+				}
+			}
+		}
+	}
+	fail("constant %s not found in %s", name, l.path)
+	return "0"
+}
+
+func suffixes(l *loaded) []string {
+	fd := l.funcDecl("CalculateGasCost")
+	var out []string
+	if fd == nil {
+		fail("app/ante/settlement_fee_checker.go: CalculateGasCost not found")
+		return nil
+	}
+	ast.Inspect(fd, func(n ast.Node) bool {
+		c, ok := n.(*ast.CallExpr)
+		if ok && exprName(c.Fun) == "strings.HasSuffix" {
+			if lit, ok := c.Args[1].(*ast.BasicLit); ok {
+				out = append(out, strings.Trim(lit.Value, "\""))
+			}
+		}
+		return true
+	})
+	return out
+}
+
+func validatorKinds(l *loaded) []string {
+	fd := l.funcDecl("getValidatorFromOracleMsg")
+	var out []string
+	if fd == nil {
+		fail("app/ante/fee.go: getValidatorFromOracleMsg not found")
+		return nil
+	}
+	ast.Inspect(fd, func(n ast.Node) bool {
+		cc, ok := n.(*ast.CaseClause)
+		if ok {
+			for _, e := range cc.List {
+				s := exprName(e)
+				out = append(out, s[strings.LastIndex(s, ".")+1:])
+			}
+		}
+		return true
+	})
+	return out
+}
+
+func postChain(l *loaded) []string {
+	fd := l.funcDecl("NewPostHandler")
+	var out []string
+	if fd == nil {
+		fail("app/post/post.go: NewPostHandler not found")
+		return nil
+	}
+	ast.Inspect(fd, func(n ast.Node) bool {
+		cl, ok := n.(*ast.CompositeLit)
+		if ok && strings.Contains(exprName(cl.Type), "PostDecorator") {
+			for _, e := range cl.Elts {
+				if c, ok := e.(*ast.CallExpr); ok {
+					out = append(out, exprName(c.Fun))
+				}
+			}
+		}
+		return true
+	})
+	return out
+}
+
+func endBlockOrder(l *loaded) []string {
+	fd := l.funcDecl("orderEndBlockers")
+	var out []string
+	if fd == nil {
+		fail("app/modules.go: orderEndBlockers not found")
+		return nil
+	}
+	ast.Inspect(fd, func(n ast.Node) bool {
+		se, ok := n.(*ast.SelectorExpr)
+		if ok && se.Sel.Name == "ModuleName" {
+			if tv, ok := l.info.Types[se]; ok && tv.Value != nil {
+				v := constant.StringVal(tv.Value)
+				if v == "oracle" || v == "settlement" {
+					out = append(out, v)
+				}
+			}
+		}
+		return true
+	})
+	return out
+}
+
+func moduleList(l *loaded) []string {
+	// modules that execute messages on behalf of accounts, if imported by app/modules.go
+	known := map[string]string{"github.com/cosmos/cosmos-sdk/x/authz": "authz", "github.com/cosmos/cosmos-sdk/x/gov": "gov", "github.com/cosmos/cosmos-sdk/x/group": "group",
+		"github.com/cosmos/ibc-go/v7/modules/apps/27-interchain-accounts": "interchain-accounts", "github.com/CosmWasm/wasmd/x/wasm": "wasm"}
+	seen := map[string]bool{}
+	for _, f := range l.files {
+		for _, im := range f.Imports {
+			p := strings.Trim(im.Path.Value, "\"")
+			for k, v := range known {
+				if strings.HasPrefix(p, k) {
+					seen[v] = true
+				}
+			}
+		}
+	}
+	var out []string
+	for k := range seen {
+		out = append(out, k)
+	}
+	sort.Strings(out)
+	return out
+}
+
+// inventory of nondeterminism-prone constructs in the state-machine packages
+func inventory(pkgs map[string]*loaded, names []string) (maps, clocks, rands, gos []string) {
+	for _, name := range names {
+		l := pkgs[name]
+		if l == nil {
+			continue
+		}
+		for _, f := range l.files {
+			if fn := l.fset.Position(f.Pos()).Filename; strings.HasSuffix(fn, ".pb.go") || strings.HasSuffix(fn, ".pb.gw.go") {
+				continue // generated codec / gateway code
+			}
+			for _, im := range f.Imports {
+				if p := strings.Trim(im.Path.Value, "\""); p == "math/rand" || p == "crypto/rand" {
+					rands = append(rands, l.pos(im)+":"+p)
+				}
+			}
+			var fn string
+			ast.Inspect(f, func(n ast.Node) bool {
+				switch x := n.(type) {
+				case *ast.FuncDecl:
+					fn = x.Name.Name
+				case *ast.RangeStmt:
+					if tv, ok := l.info.Types[x.X]; ok {
+						if _, isMap := tv.Type.Underlying().(*types.Map); isMap {
+							p := l.fset.Position(x.Pos())
+							maps = append(maps, fmt.Sprintf("%s:%s:%s", strings.TrimPrefix(p.Filename, "/repo/"), fn, exprName(x.X)))
+						}
+					}
+				case *ast.CallExpr:
+					if exprName(x.Fun) == "time.Now" {
+						p := l.fset.Position(x.Pos())
+						clocks = append(clocks, fmt.Sprintf("%s:%s", strings.TrimPrefix(p.Filename, "/repo/"), fn))
+					}
+				case *ast.GoStmt:
+					p := l.fset.Position(x.Pos())
+					gos = append(gos, fmt.Sprintf("%s:%s", strings.TrimPrefix(p.Filename, "/repo/"), fn))
+				}
+				return true
+			})
+		}
+	}
+	sort.Strings(maps)
+	sort.Strings(clocks)
+	return
+}
+
+// timeNowOnlyTelemetry: every time.Now() is an argument of a telemetry call
+func clocksOnlyTelemetry(pkgs map[string]*loaded, names []string) bool {
+	ok := true
+	for _, name := range names {
+		l := pkgs[name]
+		if l == nil {
+			continue
+		}
+		for _, f := range l.files {
+			var stack []ast.Node
+			ast.Inspect(f, func(n ast.Node) bool {
+				if n == nil {
+					stack = stack[:len(stack)-1]
+					return true
+				}
+				if c, isCall := n.(*ast.CallExpr); isCall && exprName(c.Fun) == "time.Now" {
+					good := false
+					for i := len(stack) - 1; i >= 0; i-- {
+						if pc, isCall := stack[i].(*ast.CallExpr); isCall && strings.HasPrefix(exprName(pc.Fun), "telemetry.") {
+							good = true
+						}
+					}
+					if !good {
+						ok = false
+						fail("%s: time.Now() used outside a telemetry call", l.pos(c))
+					}
+				}
+				stack = append(stack, n)
+				return true
+			})
+		}
+	}
+	return ok
+}
+
+// lock discipline of the feeder's block cache: every method touching `data` takes the mutex first and releases it by defer
+func cacheLocks(l *loaded) (methods []string, allLocked bool) {
+	allLocked = true
+	for _, f := range l.files {
+		for _, d := range f.Decls {
+			fd, ok := d.(*ast.FuncDecl)
+			if !ok || fd.Recv == nil || !strings.Contains(exprName(fd.Recv.List[0].Type), "BlockCache") {
+				continue
+			}
+			touches := false
+			ast.Inspect(fd.Body, func(n ast.Node) bool {
+				if se, ok := n.(*ast.SelectorExpr); ok && se.Sel.Name == "data" {
+					touches = true
+				}
+				return true
+			})
+			if !touches {
+				continue
+			}
+			locked := false
+			if len(fd.Body.List) >= 2 {
+				s0 := nodeSrc(l, fd.Body.List[0])
+				s1 := nodeSrc(l, fd.Body.List[1])
+				if (strings.Contains(s0, "mu.Lock") || strings.Contains(s0, "mu.RLock")) && (strings.Contains(s1, "mu.Unlock") || strings.Contains(s1, "mu.RUnlock")) {
+					if _, isDefer := fd.Body.List[1].(*ast.DeferStmt); isDefer {
+						locked = true
+					}
+				}
+			}
+			methods = append(methods, fmt.Sprintf("%s:%v", fd.Name.Name, locked))
+			if !locked {
+				allLocked = false
+			}
+		}
+	}
+	sort.Strings(methods)
+	return
+}
+
+func main() {
+	repo := flag.String("repo", "/repo", "repository")
+	out := flag.String("out", "", "directory of the generated Lean files")
+	flag.Parse()
+	pats := []string{"./app", "./app/ante", "./app/post", "./x/oracle", "./x/oracle/keeper", "./x/oracle/types", "./x/oracle/voteprocessor", "./x/settlement", "./x/settlement/keeper",
+		"./x/settlement/types", "./types", "./tools/interop-node/subscriber"}
+	pkgs := load(*repo, pats)
+	antePkg := pkgs["app/ante"]
+	if antePkg == nil {
+		fmt.Fprintln(os.Stderr, "cannot load app/ante")
+		os.Exit(3)
+	}
+	urls := msgURLs()
+	cosmos := decoratorChain(antePkg, "newCosmosAnteHandler")
+	settlus := decoratorChain(antePkg, "newSettlusAnteHandler")
+	post := postChain(pkgs["app/post"])
+	disabled := limiterList(antePkg, urls)
+	prefixes, exact := rejectRules(antePkg)
+	sp := routingPrefix(antePkg, "IsSettlementTx")
+	op := routingPrefix(antePkg, "isOracleTx")
+	var surls, ourls []string
+	for _, u := range urls {
+		if strings.HasPrefix(u, "/settlus.settlement") {
+			surls = append(surls, u)
+		}
+		if strings.HasPrefix(u, "/settlus.oracle") {
+			ourls = append(ourls, u)
+		}
+	}
+	sort.Strings(surls)
+	sort.Strings(ourls)
+	gp := stypes.DefaultParams().GasPrices
+	var prices []string
+	for _, p := range gp {
+		prices = append(prices, fmt.Sprintf("(%s, %s)", leanChars(p.Denom), p.Amount.BigInt().String()))
+	}
+	scan := []string{"x/oracle", "x/oracle/keeper", "x/oracle/types", "x/oracle/voteprocessor", "x/settlement", "x/settlement/keeper", "x/settlement/types", "app/ante", "app/post", "types"}
+	maps, clocks, rands, gos := inventory(pkgs, scan)
+	telemetryOnly := clocksOnlyTelemetry(pkgs, scan)
+	methods, locked := cacheLocks(pkgs["tools/interop-node/subscriber"])
+	dp := otypes.DefaultParams()
+
+	var b strings.Builder
+	w := func(format string, a ...interface{}) { fmt.Fprintf(&b, format+"\n", a...) }
+	w("/-\n  GENERATED by harness/cmd/extract from /repo's working tree on every run - do not edit.\n  Configuration-shaped facts the admission, fee and determinism theorems hinge on.\n-/")
+	w("namespace Settlus.Facts\n")
+	w("/-- decorators of newCosmosAnteHandler, in order -/\ndef cosmosChain : List String := %s\n", leanList(mapS(cosmos, leanStr)))
+	w("/-- decorators of newSettlusAnteHandler, in order -/\ndef settlusChain : List String := %s\n", leanList(mapS(settlus, leanStr)))
+	w("/-- post handler chain -/\ndef postChain : List String := %s\n", leanList(mapS(post, leanStr)))
+	w("/-- type URLs handed to the authz limiter -/\ndef authzDisabled : List (List Char) := %s\n", leanList(mapS(disabled, leanChars)))
+	w("/-- RejectMessagesDecorator: rejected type-URL prefixes, and exact URLs rejected at any height other than 0 -/")
+	w("def rejectPrefixes : List (List Char) := %s", leanList(mapS(prefixes, leanChars)))
+	w("def rejectAfterGenesis : List (List Char) := %s\n", leanList(mapS(exact, leanChars)))
+	w("/-- routing prefixes of IsSettlementTx / isOracleTx -/\ndef settlementPrefix : List Char := %s\ndef oraclePrefix : List Char := %s\n", leanChars(sp), leanChars(op))
+	w("/-- message type URLs registered by the two modules -/\ndef settlementUrls : List (List Char) := %s\ndef oracleUrls : List (List Char) := %s\n", leanList(mapS(surls, leanChars)), leanList(mapS(ourls, leanChars)))
+	w("/-- fixed gas costs of the settlement fee checker and the URL suffixes that select the higher cost -/")
+	w("def settlementBasicGas : Nat := %s\ndef settlementCreateTenantGas : Nat := %s", constVal(antePkg, "SettlementBasicGasCost"), constVal(antePkg, "SettlementCreateTenantGasCost"))
+	w("def createTenantSuffixes : List (List Char) := %s\n", leanList(mapS(suffixes(antePkg), leanChars)))
+	w("/-- the oracle message types from which the validator check decorator reads the validator -/\ndef validatorCheckKinds : List String := %s\n", leanList(mapS(validatorKinds(antePkg), leanStr)))
+	w("/-- default settlement gas prices (denom, numerator over 10^18), in the order the chain stores them -/\ndef defaultGasPrices : List (List Char × Nat) := %s\n", leanList(prices))
+	w("/-- store key prefixes -/\ndef utxrPrefix : Nat := %d\ndef utxrRequestIdPrefix : Nat := %d\ndef tenantPrefix : Nat := %d\ndef lastUtxrIdPrefix : Nat := %d\n",
+		stypes.UTXRPrefix[0], stypes.UTXRRequestIdPrefix[0], stypes.TenantPrefix[0], stypes.LastUtxrIdPrefix[0])
+	w("/-- oracle store key prefixes -/\ndef oraclePrefixes : List Nat := [%d, %d, %d, %d, %d]\n", otypes.FeederDelegationKeyPrefix[0], otypes.MissCountKeyPrefix[0], otypes.AggregatePrevoteKeyPrefix[0], otypes.AggregateVoteKeyPrefix[0], otypes.RoundKeyPrefix[0])
+	w("/-- sdk.ConstantReward as set in app.go -/\ndef constantReward : Bool := %v\n", sdk.ConstantReward)
+	w("/-- end-blocker order of the two modules -/\ndef endBlockOrder : List String := %s\n", leanList(mapS(endBlockOrder(pkgs["app"]), leanStr)))
+	w("/-- default oracle parameters: vote period, threshold, slash fraction (numerators over 10^18), window, max miss -/")
+	w("def defaultOracleParams : List Nat := [%d, %s, %s, %d, %d]\n", dp.VotePeriod, dp.VoteThreshold.BigInt().String(), dp.SlashFraction.BigInt().String(), dp.SlashWindow, dp.MaxMissCountPerSlashWindow)
+	w("/-- `range` over map-typed operands in x/, app/ante, app/post, types (file:function:operand) -/\ndef mapRanges : List String := %s\n", leanList(mapS(maps, leanStr)))
+	w("/-- time.Now() call sites, and whether each is an argument of a telemetry call -/\ndef clockSites : List String := %s\ndef clocksOnlyTelemetry : Bool := %v\n", leanList(mapS(clocks, leanStr)), telemetryOnly)
+	w("/-- imports of math/rand or crypto/rand, goroutine starts in the state-machine packages -/\ndef randImports : List String := %s\ndef goStatements : List String := %s\n", leanList(mapS(rands, leanStr)), leanList(mapS(gos, leanStr)))
+	w("/-- modules wired into the application that can execute messages on behalf of an account -/\ndef messageExecutingModules : List String := %s\n", leanList(mapS(moduleList(pkgs["app"]), leanStr)))
+	w("/-- methods of the feeder's BlockCache that touch the tree map, with whether they take the mutex first and release it by defer -/")
+	w("def cacheMethods : List String := %s\ndef cacheAllLocked : Bool := %v\n", leanList(mapS(methods, leanStr)), locked)
+	w("end Settlus.Facts")
+
+	// translated integer functions
+	gen := translateAll(pkgs)
+
+	if len(problems) > 0 {
+		for _, p := range problems {
+			fmt.Println("EXTRACT-PROBLEM", p)
+		}
+	}
+	if *out != "" {
+		os.MkdirAll(*out, 0o755)
+		os.Remove(filepath.Join(*out, "Facts.lean"))
+		os.Remove(filepath.Join(*out, "Arith.lean"))
+		must(os.WriteFile(filepath.Join(*out, "Facts.lean"), []byte(b.String()), 0o644))
+		must(os.WriteFile(filepath.Join(*out, "Arith.lean"), []byte(gen), 0o644))
+		js, _ := json.MarshalIndent(map[string]interface{}{"cosmosChain": cosmos, "settlusChain": settlus, "postChain": post, "authzDisabled": disabled, "rejectPrefixes": prefixes,
+			"rejectAfterGenesis": exact, "mapRanges": maps, "clockSites": clocks, "cacheMethods": methods, "problems": problems}, "", " ")
+		must(os.WriteFile(filepath.Join(*out, "facts.json"), js, 0o644))
+	}
+	if len(problems) > 0 {
+		os.Exit(4)
+	}
+}
+
+func must(err error) {
+	if err != nil {
+		panic(err)
+	}
+}
